@@ -545,10 +545,12 @@ def _interleave(self, specs, sched):
                                     we[l] = 0
                             return we[l]
                         fine = set()
-                        for a, b in t.links_iter(out=True):
+                        # the query walks the out-lists (out=True) or the in-lists (out=False) of the pages: a batch writes
+                        # the in-lists after the out-lists, so "sustained" is judged on the lists the query reads
+                        for a, b in t.links_iter(out=bool(sp[1])):
                             wa, wb = we_of(a), we_of(b)
                             if wa and wb and (sp[2] or wa != wb):
-                                fine.add((a, b, (wa, wb) if sp[1] else (wb, wa)))
+                                fine.add((a, b, (wa, wb)))
                         moments[k].append((coarse, fine))
                     except Exception:
                         moments[k].append(None)
